@@ -38,8 +38,11 @@ def gen_case(rng, b1):
     st2 = sec_to_ns(ov) if ov is not None else st_ns(b2)
     cur = st1
     emitted_guess = 0
+    stray = rng.random() < 0.4     # stray Wait / unknown-status Flow Controls with another STmin byte: refused (wftmax=0), must not change the pacing
     for step in range(rng.randint(12, 40)):
         r = rng.random()
+        if stray and rng.random() < 0.15:
+            ops.append([0, 'rx', rid, int(ext), hx(pfx + bytes([0x31, rng.choice([0, bs]), rng.choice([0, 0, 1, 0xF1, b2])]))])
         if r < 0.55:
             ops.append([0, 'proc', 1, 1])
         elif r < 0.65:
@@ -83,7 +86,10 @@ def oracle(case, lines, insts):
             now += int(op[2])
         elif op[1] == 'rx':
             d = unhx(op[4])[len(pfx):]
-            hist.append(sec_to_ns(ov) if ov is not None else st_ns(d[2]))
+            if d[0] & 0xF == 0 or not hist:
+                hist.append(sec_to_ns(ov) if ov is not None else st_ns(d[2]))
+            else:
+                hist.append(hist[-1])      # only a ContinueToSend carries a separation time to honour
         before = consumed
         for e in evs:
             if e.startswith('stats:'):
